@@ -131,7 +131,7 @@ var propSpecs = map[string]*propSpec{
 	"C15": {ID: "C15", Rules: rr("J1", "J2", "J3"), Controls: []string{"J1", "J2"},
 		Explanation: "At every merge site the size handed to Join is the constant -1 or is, on every path, positive and bounded by the receiving log's length (J1); DF1 (Join slices values[len-size:] unguarded) is re-derived from the dependency. The limit handed to the head fetches is never 0 (J3) and is not reduced on its way, including through a helper parameter (J2).",
 		NotDecided:  "which entries survive trimming (that they are the most recent)."},
-	"C16": {ID: "C16", Rules: []ruleRef{{Rule: "E1"}, {Rule: "E2"}, except("E3", "accesscontroller"), {Rule: "E4"}, {Rule: "E5"}, {Rule: "E6"}}, Controls: []string{"E1", "E6"},
+	"C16": {ID: "C16", Rules: []ruleRef{{Rule: "E1"}, {Rule: "E2"}, except("E3", "accesscontroller"), {Rule: "E4"}, {Rule: "E5"}, {Rule: "E6"}}, Controls: []string{"E1", "E5", "E6"},
 		Explanation: "View refresh and head persistence dominate EventWrite/EventReplicated (E1); every acknowledged write emits exactly one EventWrite carrying the appended entry (E2); each emitter is only given values of the type it was created for (E3); the legacy emitter is on the store's bus on every initialiser path (E4); sends on a legacy subscriber's delivery channel are in one goroutine or all under the queue lock (E5). A try-send used as a wake-up goes to a channel with capacity (E6).",
 		NotDecided:  "the bus's own FIFO/back-pressure semantics (dependency)."},
 	"C17": {ID: "C17", Rules: []ruleRef{{Rule: "P3"}, only("I4", "Append"), {Rule: "I10"}}, Controls: []string{"P3"},
